@@ -32,9 +32,10 @@
 (***************************************************************************)
 EXTENDS Integers, Sequences, FiniteSets
 
-CONSTANTS Shapes,     \* set of per-Einsum shapes: sequences of row counts
-          ESet,       \* numbers of Einsums to explore
-          RSet,       \* numbers of result rows to explore
+CONSTANTS ESet,       \* numbers of Einsums to explore
+          Shapes1, Shapes2, Shapes3,   \* per-Einsum shapes (sequences of row counts) to explore
+                                       \* when there are 1 / 2 / 3 Einsums
+          RSet1, RSet2, RSet3,         \* numbers of result rows to explore, likewise
           KeyMode,    \* "before" | "after"
           WalkMode    \* "reverse" | "forward"
 
@@ -83,10 +84,13 @@ SortDesc(S) == IF S = {} THEN <<>>
 \* every shape has at least one row in total (otherwise nothing can be selected)
 ShapeOK(sh) == \A e \in 1 .. Len(sh) : SumSeq(sh[e]) >= 1
 
+ShapesE(ne) == IF ne = 1 THEN Shapes1 ELSE IF ne = 2 THEN Shapes2 ELSE Shapes3
+RSetE(ne)   == IF ne = 1 THEN RSet1 ELSE IF ne = 2 THEN RSet2 ELSE RSet3
+
 Init ==
-  /\ \E ne \in ESet : shape \in [1 .. ne -> Shapes]
+  /\ \E ne \in ESet : shape \in [1 .. ne -> ShapesE(ne)]
   /\ ShapeOK(shape)
-  /\ \E nr \in RSet :
+  /\ \E nr \in RSetE(Len(shape)) :
         sel \in [1 .. nr -> {f \in [1 .. Len(shape) -> 0 .. 8] :
                                 \A e \in 1 .. Len(shape) : f[e] < SumSeq(shape[e])}]
   /\ phase = "compress"
